@@ -194,8 +194,9 @@ int main() {
     PROP(b.f0 == keep, "no fault: length as specified");
     for (size_t i = 0; i < NN; i++) if (i < keep) {
       size_t pos = skip + i;
-      unsigned char want = pos < size0 ? pos : FRESH0 + (pos - size0) - (m > NN ? m - NN : 0);
-      PROP(SLOT(&b, i).id == want, "no fault: old elements then clones, last N kept, in order");
+      unsigned char id = SLOT(&b, i).id;
+      if (pos < size0) PROP(id == pos, "no fault: old elements first, last N kept, in order");
+      else PROP(id >= FRESH0 && id < IDS && CLONE_OF[id] == 16 + (pos - size0), "no fault: then clones of the slice elements, last N kept, in order");
     }
   }
   final_drop(&b); caller_objects_untouched();
@@ -250,7 +251,7 @@ int main() {
   if (!panicked) {
     check_valid(&c);
     PROP(c.f0 == b0.f0, "no fault: the clone has the source's length");
-    for (size_t i = 0; i < NN; i++) if (i < c.f0) PROP(SLOT(&c, i).id == FRESH0 + i, "no fault: element-wise clones in order");
+    for (size_t i = 0; i < NN; i++) if (i < c.f0) PROP(SLOT(&c, i).id >= FRESH0 && SLOT(&c, i).id < IDS && CLONE_OF[SLOT(&c, i).id] == 48 + i, "no fault: element-wise clones in order");
     final_drop(&c);
   }
   caller_objects_untouched();
@@ -270,7 +271,7 @@ int main() {
   for (size_t i = 0; i < NN; i++) if (i < o0.f0) PROP(SLOT(&o, i).id == 48 + i, "clone_from leaves the source's elements alone");
   if (!panicked) {
     PROP(b.f0 == o0.f0, "no fault: destination has the source's length");
-    for (size_t i = 0; i < NN; i++) if (i < b.f0) PROP(SLOT(&b, i).id == FRESH0 + i, "no fault: element-wise clones in order");
+    for (size_t i = 0; i < NN; i++) if (i < b.f0) PROP(SLOT(&b, i).id >= FRESH0 && SLOT(&b, i).id < IDS && CLONE_OF[SLOT(&b, i).id] == 48 + i, "no fault: element-wise clones in order");
   }
   final_drop(&b); caller_objects_untouched();
   if (kind_at_op != F_DROP) no_leak();
